@@ -6,38 +6,44 @@ class C05(InterpProp):
     DESIGN_REF = "DESIGN.md §7 C05"
     QUICK_N = 300
     THOROUGH_N = 12000
-    LEVEL_TEXT = ("PARTIAL. Coq theorem about an executable model of the interpreter (coq/model/Interp.v: every generator "
+    LEVEL_TEXT = ("PARTIAL. Coq theorems about an executable model of the interpreter (coq/model/Interp.v: every generator "
                   "of pinterpreter.py defunctionalised into frames -- visit, thresholds, _visit_children, Program, Blank/"
                   "Comment, Mark, Block with its lock protocol, End block(s) with interrupt abortion, Watch, Alarm with "
                   "re-arm and subtree reset, Wait, Noop, command lines, invalid instructions, exception capture in visit, "
                   "the sub-tick loop over main generator and interrupt copies): in EVERY state of EVERY run, for all methods "
-                  "of these constructs, all environments and any number of ticks, the blocks holding the lock form one nested "
-                  "chain (invariant preserved by each of the ~30 frame transitions, lifted by a transfer theorem). The "
-                  "other clauses (Block tag = innermost active block, pending Watches / Alarms ended with their block, "
-                  "nothing after a block starts before it ended) are decided by the Coq monitor on the real interpreter; "
-                  "one is refuted (known finding).")
+                  "of these constructs, all environments and any number of ticks, (1) the blocks holding the lock form one "
+                  "nested chain and (2) no Watch / Alarm of the interrupt map lies inside a block that has ended (End block "
+                  "ends the block together with its pending Watches and Alarms; with the /repo fix). Both are invariants "
+                  "preserved by each of the ~30 frame transitions, lifted by a transfer theorem. The other clauses (Block tag "
+                  "= innermost active block, nothing after a block starts before it ended) are decided by the Coq monitor on "
+                  "the real interpreter; the last one is refuted inside re-arming Alarm bodies (known finding).")
     LEVEL_NOTE = ("Theorems are about coq/model/Interp.v; macros, injection, live edits, cancel/force are not modelled (stage "
-                  "A). Tie: generated methods are parsed by the real parser and run on the real PInterpreter (interp.tick "
-                  "called directly on an engine that provides the interpreter context) under a scripted environment -- per "
-                  "tick: which nodes still await their threshold, which conditions evaluate true or raise "
-                  "(_is_awaiting_threshold / _evaluate_condition replaced by the script), which started command lines the "
-                  "command manager reports completed, tick increments -- and compared with the model after EVERY tick on "
-                  "every node's ten state fields, the interrupt map order, the Block tag, commands handed to the engine, "
-                  "whether tick raised and the recorded error node. No axioms.")
+                  "A). Theorem (2) assumes that parent pointers and child lists of the method describe the same tree "
+                  "(tree_ok_b, evaluated by the monitor on every generated method). Tie: generated methods are parsed by the "
+                  "real parser and run on the real PInterpreter (interp.tick called directly on an engine that provides the "
+                  "interpreter context) under a scripted environment -- per tick: which nodes still await their threshold, "
+                  "which conditions evaluate true or raise (_is_awaiting_threshold / _evaluate_condition replaced by the "
+                  "script), which started command lines the command manager reports completed, tick increments -- and "
+                  "compared with the model after EVERY tick on every node's ten state fields, the interrupt map order, the "
+                  "Block tag, commands handed to the engine, whether tick raised and the recorded error node. No axioms.")
     TECHNIQUE = "Coq proof (invariant preserved by every frame transition of the interpreter model, lifted to all runs) + tick-by-tick correspondence with the real PInterpreter under scripted environments + Coq monitor on the real node states"
     RULE = ("methods of 3-40 lines over the stage-A constructs (nested blocks with End block / End blocks / missing ends, "
             "watches and alarms also nested, thresholds on 15% of the lines, waits 0-2 s, Noop 0-3, UOD commands, simple and "
             "invalid instructions, blank and comment lines, trailing blanks), 10-70 ticks with increments 1-2, thresholds "
             "released at random ticks, per-condition truth probabilities 0-1, 1% condition errors, commands completed with "
-            "probability 0.3 per tick; non-trivial = a block took the lock and a block ended; distinct by canonical JSON")
+            "probability 0.3 per tick; Watches / Alarms nest up to 3 deep; 12% of the methods have the directed shape 'block "
+            "whose body nests Watches / Alarms in Watches / Alarms, ended from inside one of them, from its own body or from a "
+            "Watch outside, followed by lines after the block'; non-trivial = a block took the lock and a block ended; "
+            "distinct by canonical JSON")
 
     def nontrivial(self, case, obs):
         locked = [sum(1 for n in v["nodes"] if n[5]) for v in obs["views"]]
         return max(locked, default=0) >= 1 and any(n[6] for v in obs["views"] for n in v["nodes"])
 
     def classify(self, case, obs):
-        """known: an Alarm inside a block that has ended re-registers itself (its generator is still in the tick's copy of
-        the interrupt map) -- every offending interrupt must be such an Alarm and nothing else may be wrong"""
+        """known: inside the body of a re-arming Alarm, generators of the previous invocation (a nested Watch / Alarm whose
+        interrupt survives the re-arm, or the duplicate run of a nested Alarm) start lines after a block while the block of
+        the new invocation is running -- every offending block must lie inside an Alarm body and nothing else may be wrong"""
         tab = obs["table"]
 
         def anc(n):
@@ -58,10 +64,15 @@ class C05(InterpProp):
                 return None
             for i in v["interrupts"]:
                 if any(tab[a]["kind"][0] == "KBlock" and nd[a][6] for a in anc(i)):
-                    if tab[i]["kind"][0] != "KAlarm":
-                        return None
-                    seen = True
-        return "C05-alarm-in-ended-block-rearms-itself" if seen else None
+                    return None
+            for x in blocks:
+                sibs = tab[tab[x]["parent"]]["children"]
+                for s_ in sibs[sibs.index(x) + 1:]:
+                    if nd[s_][0] and not (nd[x][6] or nd[x][1] or not nd[x][0]):
+                        if not any(tab[a]["kind"][0] == "KAlarm" for a in anc(x)):
+                            return None
+                        seen = True
+        return "C05-stale-generator-runs-lines-after-a-block-in-a-rearmed-alarm-body" if seen else None
 
     def kind(self, case, obs):
         locked = [sum(1 for n in v["nodes"] if n[5]) for v in obs["views"]]
